@@ -24,4 +24,6 @@ def run(chk, args):
         {"family": "float_sa", "ns": "3,4,5,6", "count": 12 if q else 80, "length": 10, "interleave": 1},
         # player counts beyond 6: 2^n passes 64 (seeds C04-d, C08-d: a 64-bit key over coalitions silently wraps there)
         {"family": "cached", "ns": "7,8", "count": 4 if q else 10, "length": 12, "interleave": 1},
+        # 2^n = 512 (seed C01-e: a uint8 cast loses the players from 8 upwards); n = 10 in the thorough tier
+        {"family": "cached", "ns": "9" if q else "9,10", "count": 3 if q else 6, "length": 6, "interleave": 1},
     ])
